@@ -129,6 +129,10 @@ fn cache_menu() -> Vec<ResourceRecord> {
         // aliases from outside any local zone into names the authoritative zone owns
         rr(&dn("ext.k."), cname(&dn("www.a.ex.")), 300),
         rr(&dn("ext2.k."), cname(&dn("nope.a.ex.")), 300),
+        // a cached alias at a name for which local non-authoritative data holds
+        // another type (left by an earlier question for a type it does not hold)
+        rr(&dn("host.override."), cname(&dn("evil.k.")), 300),
+        rr(&dn("ads.example."), cname(&dn("tracker.k.")), 300),
     ]
 }
 
